@@ -39,8 +39,7 @@ Lemma flush_then_open (s : gmap path memfile) p buf f :
   snd (mem_step (COpenFile p) (fst (msec_sem (MPublish p buf) s))) = Ok buf.
 Proof.
   intros Hf Ht. rewrite (mem_publish_file s p buf f Hf Ht). rewrite ms_open_file.
-  cbn [msec_sem]. unfold mem_update. rewrite lookup_insert. cbn [fst snd].
-  rewrite lookup_insert. reflexivity.
+  cbn [msec_sem]. rewrite lookup_insert. reflexivity.
 Qed.
 
 Lemma publish_len (s : gmap path memfile) p buf f :
